@@ -230,11 +230,17 @@ def truthy(v):
     return not (v is None or v is False)
 
 
+# When set, both references end their trace with the number of arrays and of objects the run created ("allocations are side effects that
+# happen the documented number of times", C13; "exactly one A record per array or object the program creates", C16). Only the counts are
+# compared: the README does not say whether an array exists before or after its initializers have run.
+COUNT_ALLOCATIONS = False
+
+
 def eval_ast(ast, choices, fuel=400):
     """(trace, verdict). choices: marker number -> the value m<k>() returns."""
     trace = []
     functions = {}
-    state = {"fuel": fuel}
+    state = {"fuel": fuel, "arrays": 0, "objects": 0}
 
     def ev(n, env, this=None):
         state["fuel"] -= 1
@@ -267,6 +273,7 @@ def eval_ast(ast, choices, fuel=400):
                 raise Stop("array size")
             # "the initial value ... will be re-executed for every element" (README, Arrays); each run in its own scope
             out = []
+            state["arrays"] += 1
             for _ in range(size):
                 out.append(ev(n[2], env + [{}]))
             return out
@@ -287,6 +294,7 @@ def eval_ast(ast, choices, fuel=400):
                     fields[mem[1]] = ev(mem[2], env)
                 elif mem[0] == "Function":
                     methods[mem[1]] = mem
+            state["objects"] += 1
             return Obj(parent, fields, methods)
         if k == "AccessField":
             o = ev(n[1], env)
@@ -355,6 +363,8 @@ def eval_ast(ast, choices, fuel=400):
     globals_ = {}
     try:
         ev(ast, [globals_])
+        if COUNT_ALLOCATIONS:
+            trace.append(("created", state["arrays"], state["objects"]))
         return trace, "ok"
     except Stop as e:
         return trace, "stopped: %s" % e
@@ -377,6 +387,7 @@ def run_code(p, choices, fuel=4000):
             globs[pool[c[1]][1]] = None
     stack = []
     frames = []
+    created = {"arrays": 0, "objects": 0}
 
     def enter(mc, args, ret):
         frames.append({"locals": list(args) + [None] * mc[3], "ret": ret})
@@ -389,6 +400,8 @@ def run_code(p, choices, fuel=4000):
             if fuel < 0:
                 raise Stop("fuel")
             if ip == len(code) and len(frames) == 1:
+                if COUNT_ALLOCATIONS:
+                    trace.append(("created", created["arrays"], created["objects"]))
                 return trace, "ok"   # the entry method has no return: running off the end of the code ends the program
             ins = code[ip]
             k = ins[0]
@@ -421,6 +434,7 @@ def run_code(p, choices, fuel=4000):
                 size = stack.pop()
                 if not isinstance(size, int) or isinstance(size, bool) or size < 0:
                     raise Stop("array size")
+                created["arrays"] += 1
                 stack.append([init] * size)
             elif k == "Object":
                 members = pool[ins[1]][1]
@@ -429,6 +443,7 @@ def run_code(p, choices, fuel=4000):
                 parent = stack.pop()
                 fields = {pool[pool[m][1]][1]: v for m, v in zip(slots, vals)}
                 methods = {pool[pool[m][1]][1]: pool[m] for m in members if pool[m][0] == "Method"}
+                created["objects"] += 1
                 stack.append(Obj(parent, fields, methods))
             elif k == "GetField":
                 o = stack.pop()
@@ -477,6 +492,8 @@ def run_code(p, choices, fuel=4000):
             elif k == "Return":
                 fr = frames.pop()
                 if fr["ret"] is None:
+                    if COUNT_ALLOCATIONS:
+                        trace.append(("created", created["arrays"], created["objects"]))
                     return trace, "ok"
                 nxt = fr["ret"]
             else:
